@@ -255,7 +255,8 @@ def gen_response(rng, ident, truth, close_ok):
     line = proto + b" %d" % status + (b" " + reason if reason or rng.random() < 0.5 else b"") + b"\r\n"
     if rng.random() < 0.15:
         # an interim response first: nothing of it may show in the final one (protocol, status, reason phrase, header fields)
-        line = rng.choice([b"HTTP/1.1 100 Continue\r\n\r\n", b"HTTP/1.0 100 Go On Then\r\nX-Interim: i%dz\r\n\r\n" % ident, b"HTTP/1.1 100\r\n\r\n"]) + line
+        line = b"".join(rng.choice([b"HTTP/1.1 100 Continue\r\n\r\n", b"HTTP/1.0 100 Go On Then\r\nX-Interim: i%dz\r\n\r\n" % ident, b"HTTP/1.1 100\r\n\r\n"])
+                        for _ in range(rng.choice([1, 1, 1, 2]))) + line
     truth.update({"res_proto": proto, "status": status, "reason": reason, "res_body": body})
     return Msg(line, fields, tail, trailers)
 
@@ -590,7 +591,19 @@ def check(ctx):
     truths = [c.truths() for c in conns]
     nmut = n // 4
     mcases = [mutate_case(rng, cases[rng.randrange(n)]) for _ in range(nmut)]
-    allc = cases + mcases
+    # outside the grammar, tied by the correspondence only: request and status lines whose parts are delimited by runs and mixtures of SP and the
+    # other white-space bytes (HT, VT, FF, CR), with trailing white space, under every personality
+    WS = [b" ", b"\t", b"\t\t", b" \t", b"\t ", b"\x0b", b"\x0c\t", b"\r", b"  "]
+    TR = [b"", b" ", b"\t", b"\t\t", b"\x0b"]
+    dcases = []
+    for d1 in WS:
+        for d2 in WS:
+            for tr in TR:
+                p = rng.choice([0, 1, 2, 3, 4, 5, 6, 7, 8, 9])
+                rq = b"GET" + d1 + b"/index.html" + d2 + b"HTTP/1.1" + tr + b"\r\nHost: a\r\n\r\n"
+                rs = b"HTTP/1.1" + d1 + b"200" + d2 + b"OK" + tr + b"\r\nContent-Length: 0\r\n\r\n"
+                dcases.append(sconnp.case(["O", "Q" + rq.hex(), "S" + rs.hex(), "C"], cfg=sconnp.cfg_str(p=p)))
+    allc = cases + mcases + dcases
     impl, model, crash = vf.correspond(ctx, "S-connp", allc)
     if crash:
         vf.report_crash(ctx, "S-connp", allc, crash)
@@ -622,7 +635,7 @@ def check(ctx):
                                                     "theorem": "Properties_C02.v (the field named in `why`)"})
     mm = vf.first_mismatches(impl[:limit], model[:limit], limit=1000)
     st = ctx.cov["suites"].setdefault("S-connp", {"cases": 0, "mismatches": 0})
-    st.update({"mismatches": len(mm), "oracle_failures": nfail, "grammar_cases": n, "mutated_cases": nmut})
+    st.update({"mismatches": len(mm), "oracle_failures": nfail, "grammar_cases": n, "mutated_cases": nmut, "line_delimiter_cases": len(dcases)})
     if mm and not nfail and not crash:
         # the library left the model without breaking a ground-truth field of any grammar case: the oracle search found no failing input
         inside = [i for i in mm if i < n]
